@@ -168,23 +168,23 @@ class BusDriver:
         le = (self.serial % 2 == 0)
         if kind == 'call':
             f = [('path', '/p/q'), ('interface', 'org.ex.I1'), ('member', 'Do'), ('destination', d)] + extra
-            s, raw = self._raw(c, 1, f, 'siv', ['arg', self.serial, refwire.Variant('u', 4000000000)], flags=self.serial % 4, le=le,
+            s, raw = self._raw(c, 1, f, 'siv', ['arg', self.serial, refwire.Variant('u', 4000000000)], flags=self.serial % 8, le=le,
                                descr=('fwd', kind, dest))
         elif kind == 'return':
             f = [('reply_serial', 4242), ('destination', d)] + extra
             s, raw = self._raw(c, 2, f, 'asa{sv}', [['r', 'é'], [('k', refwire.Variant('y', 7)), ('p', refwire.Variant('o', '/q'))]], le=le,
-                               flags=self.serial % 4, descr=('fwd', kind, dest))
+                               flags=self.serial % 8, descr=('fwd', kind, dest))
         elif kind == 'error':
             f = [('error_name', 'org.ex.Err'), ('reply_serial', 4243), ('destination', d)] + extra
-            s, raw = self._raw(c, 3, f, 's', ['why'], le=le, flags=self.serial % 4, descr=('fwd', kind, dest))
+            s, raw = self._raw(c, 3, f, 's', ['why'], le=le, flags=self.serial % 8, descr=('fwd', kind, dest))
         else:
             f = [('path', '/p'), ('interface', 'org.ex.I1'), ('member', 'Uni'), ('destination', d)] + extra
-            s, raw = self._raw(c, 4, f, None, None, le=le, flags=self.serial % 4, descr=('fwd', kind, dest))
+            s, raw = self._raw(c, 4, f, None, None, le=le, flags=self.serial % 8, descr=('fwd', kind, dest))
         self.p[c].dataReceived(raw)
 
     def do_Emit(self, c, s):
         path, iface, member = SIGS[s]
-        ser, raw = self._raw(c, 4, [('path', path), ('interface', iface), ('member', member)], 'ss', [s, 'tail'], flags=self.serial % 4, descr=('emit', s))
+        ser, raw = self._raw(c, 4, [('path', path), ('interface', iface), ('member', member)], 'ss', [s, 'tail'], flags=self.serial % 8, descr=('emit', s))
         self.p[c].dataReceived(raw)
 
     # -- projection
